@@ -3739,3 +3739,37 @@ pub mod verif_keyspace_hooks {
         }
     }
 }
+
+/// Verification hooks (only with `--cfg scylla_verif`): an idle [`Connection`] object (TCP
+/// connect + router task, no CQL frame is ever sent) for driving the request execution loop
+/// with scripted targets.
+#[cfg(scylla_verif)]
+#[allow(missing_docs)]
+pub(crate) mod verif_idle_connection_hooks {
+    use super::*;
+
+    pub(crate) async fn idle_connection(
+        addr: SocketAddr,
+    ) -> Result<(Arc<Connection>, ErrorReceiver), ConnectionError> {
+        let config = HostConnectionConfig {
+            local_ip_address: None,
+            shard_aware_local_port_range: ShardAwarePortRange::EPHEMERAL_PORT_RANGE,
+            compression: None,
+            tcp_socket_options: TcpSocketOptions::default(),
+            timestamp_generator: None,
+            event_sender: None,
+            tls_config: None,
+            connect_timeout: std::time::Duration::from_secs(5),
+            default_consistency: Default::default(),
+            authenticator: None,
+            address_translator: None,
+            write_coalescing_delay: None,
+            keepalive_interval: None,
+            keepalive_timeout: None,
+            tablet_sender: None,
+            identity: SelfIdentity::default(),
+        };
+        let (connection, error_receiver) = Connection::new(addr, None, config).await?;
+        Ok((Arc::new(connection), error_receiver))
+    }
+}
